@@ -7,11 +7,13 @@ Import ListNotations.
 Open Scope N_scope.
 
 (* Generic driver entry point: ops of one case -> expected observation lines.
-   The first line of a case is the configuration [0 fix16 fix17 cacheOn]. *)
+   The first line of a case is the configuration [0 fix16 fix17 cacheOn] or [0 fix16 fix17 cacheOn fix17b]. *)
 Definition run_case (ops : list (list Z)) : list (list Z) :=
+  let go (f16 f17 c f17b : Z) (r : list (list Z)) :=
+    [0%Z] :: run_wire {| fix16 := negb (f16 =? 0)%Z; fix17 := negb (f17 =? 0)%Z; fix17b := negb (f17b =? 0)%Z |}
+                      c15_TractLength (init_state (negb (c =? 0)%Z)) r in
   match ops with
-  | [0%Z; f16; f17; c] :: r =>
-      [0%Z] :: run_wire {| fix16 := negb (f16 =? 0)%Z; fix17 := negb (f17 =? 0)%Z |} c15_TractLength
-                        (init_state (negb (c =? 0)%Z)) r
+  | [0%Z; f16; f17; c] :: r => go f16 f17 c 0%Z r
+  | [0%Z; f16; f17; c; f17b] :: r => go f16 f17 c f17b r
   | _ => map (fun _ => [(-1)%Z]) ops
   end.
